@@ -145,6 +145,20 @@ func (pg *ProgGen) loopMeta() []mt.Stmt {
 // seq returns a sequence expression and the element kind ("int" | "str").
 func (pg *ProgGen) seq() (mt.Expr, string) {
 	r := pg.R
+	if r.P(1, 12) {
+		// a filter chain over an undefined or empty base that yields the sequence (and one that yields nothing)
+		base := []mt.Expr{mt.V("nosuchvar"), mt.V("nosuchvar2"), mt.Attr{E: mt.V("o"), Name: "nosuchkey"}, mt.S(""), mt.Arr{}}[r.Intn(5)]
+		switch r.Intn(4) {
+		case 0:
+			return mt.Filt{E: base, Name: "default", Args: []mt.Expr{mt.Arr{Items: []mt.Expr{mt.I(int64(r.Range(1, 9))), mt.I(int64(r.Range(1, 9)))}}}}, "int"
+		case 1:
+			return mt.Filt{E: base, Name: "default", Args: []mt.Expr{mt.V(fmt.Sprintf("l%d", r.Intn(13)))}}, "int"
+		case 2:
+			return mt.Filt{E: base, Name: "default", Args: []mt.Expr{mt.S([]string{"ab", "é", ""}[r.Intn(3)])}}, "str"
+		default:
+			return mt.Filt{E: base, Name: "default", Args: []mt.Expr{mt.Arr{}}}, "int"
+		}
+	}
 	switch r.Intn(9) {
 	case 0, 1, 2:
 		return mt.V(fmt.Sprintf("l%d", r.Intn(13))), "int"
